@@ -709,7 +709,7 @@ def check_property(pid, tier, seed):
         # (this is what notices a change in a part the contracts only ASSUME, e.g. what the package checksum covers)
         if not violations:
             w = find_witness(pid, deep=False)
-            cov["cheap_cross_check_against_real_code"] = {"finders": "witness library" + (", fault enumeration on the serialized package" if pid == "C09" else "") + (", executable next() contract at boundary counters" if pid == "C14" else ""),
+            cov["cheap_cross_check_against_real_code"] = {"finders": "witness library" + (", fault enumeration on the serialized package" if pid == "C09" else "") + (", executable next() contract at boundary counters" if pid == "C14" else "") + (", forced-schedule sweep through the pause hook (amend: find | match | remove..push; 12 order kinds x 7 targets x 9 match sizes)" if pid in ("C03", "C12") else ""),
                                                           "refutation_found": bool(w), "stats": _WITNESS_STATS.get(pid)}
             if w:
                 rp = os.path.join(REPLAYS, "%s-crosscheck.json" % pid)
